@@ -10,7 +10,7 @@ from . import harness
 from . import peers
 from . import shim
 from . import transports as T
-from .engine import Violation, gen_costs, collect_info
+from .engine import Violation, gen_costs, collect_info, gen_eintr
 from .harness import EOF, TIMEOUT
 from .kernel import OPOST, ECHO
 from .world import SimHang, HarnessError
@@ -81,6 +81,7 @@ def generate(rng):
     if rng.random() < 0.2:
         steps.append({'silence': rng.choice([100000, 1000000, 5000000])})
     scn['steps'] = steps
+    gen_eintr(rng, scn)
     return scn
 
 
